@@ -167,8 +167,8 @@ def token_of(v):
     if isinstance(v, list):
         return json.dumps(v)
     if isinstance(v, dict):
-        if list(v) == ["$regex"] and "/" not in v["$regex"]:
-            return "/" + v["$regex"] + "/"
+        if list(v) == ["$regex"]:
+            return "/" + v["$regex"] + "/"  # the delimiters are the outermost slashes; the pattern may hold more
         if v == {"$exists": True}:
             return "!"
         return json.dumps(v)
